@@ -24,7 +24,7 @@ MANIFEST = {
 }
 
 LINES = ['^a\\.', 'b$', '.*', 'x+', 'a.b', '# c', '', '  ', '(', ' ^a ', '(a|x)\\.b', '^(.)\\1', '(?i)^A\\.']
-NAMES = ['a.b', 'ab', 'b', 'xa.b', 'c', 'a.bb', 'A.B', 'é.b', 'bb', 'aa.b']
+NAMES = ['a.b', 'ab', 'b', 'xa.b', 'c', 'a.bb', 'A.B', 'é.b', 'bb', 'aa.b', 'a.b;=x', 'c;k=v;a=b', 'b;k']   # (the last three look tagged: broken tag syntax, valid unsorted tags)
 VALUES = [0.0, 1.5, math.inf, -math.inf, math.nan]
 TIMESTAMPS = [-1, 0, 59, 60, 61, 61.7, 1e9 + 0.25]
 RESOLUTIONS = [0, 1, 10, 60]
